@@ -5,6 +5,7 @@ import QuillModel.NamedArgs.Pairs
 import QuillModel.NamedArgs.Json
 import QuillModel.NamedArgs.Message
 import QuillModel.NamedArgs.JsonParse
+import QuillModel.NamedArgs.Fuel
 /-!
 # C19 — named placeholders: matching text, ordered key/value pairs, one JSON object per line
 
@@ -297,6 +298,18 @@ theorem C19_lookup_transparent (c : Cache) (hc : CacheInv c) (t : Str) :
 
 example : (runHistory [] ["{a}".toList, "{b} {c}".toList, "{a}".toList]).1
     = ["{a}".toList, "{b} {c}".toList, "{a}".toList].map process := by decide
+
+/-! ## the loop transcriptions run to completion -/
+
+/-- For **every** string (in the grammar or not) the fuel the model gives its loops is adequate: any larger amount
+    yields the same flag, the same scanner state and the same split — the definitions denote the C++ loops run to
+    their natural exit, and none of the theorems above holds because a loop was cut short. -/
+theorem C19_loops_run_to_completion (t : Str) (extra : Nat) :
+    detOuter t (t.length + 1 + extra) 0 false = containsNamedArgs t ∧
+    procOuter t (t.length + 1 + extra) (findFrom '{' t 0) {} = procOuter t (t.length + 1) (findFrom '{' t 0) {} ∧
+    (∀ (sep : Str) (n : Nat), sep ≠ [] →
+      splitAssign sep t (t.length + 2 + extra) 0 0 (List.replicate n []) = splitValues sep t n) :=
+  ⟨containsNamedArgs_fuel t extra, process_fuel t extra, fun _ n hne => splitValues_fuel hne t n extra⟩
 
 /-! ## LOGJ_ -/
 
